@@ -453,10 +453,23 @@ def run_c15(chk):
     sessions = []
     work = os.path.join(core.WORK, "C15-cli")
     os.makedirs(work, exist_ok=True)
-    for i in range(n):
+    # files the static check rejects on lines that never run (errors found deep inside expressions), whose executed part
+    # nests close to the interpreter's depth limit: what the check leaves behind in the program it hands over must not
+    # change how the program runs (seeded changes C15-mut3 / C15-mut5: the checker's depth counter leaked on its error path)
+    def deep(k, inner):
+        return "(" * k + inner + ")" * k
+    C15_FIXED = [
+        [f"10 PRINT {deep(d, '1 + 2')}", "20 END"] + [f"{30 + 10 * j} X = {deep(12, chr(34) + 'A' + chr(34) + ' + 2')}" for j in range(4)]
+        for d in (40, 52, 58, 61)
+    ] + [
+        ["10 DIM N(3) : N(1) = 1", f"20 PRINT {'N(' * 20 + '1' + ')' * 20}", "30 END", f"40 Y$ = {deep(30, '1 +')}", f"50 Z = {deep(25, '1 < ' + chr(34) + 'b' + chr(34))}"],
+    ]
+    for i in range(n + len(C15_FIXED)):
         r = chk.rng.fork(("c15", i))
         pg = gen.ProgGen(r, fault=0.03, use_input=r.chance(0.5))
         lines = pg.generate(size=4 + r.below(6))
+        if i >= n:
+            lines = list(C15_FIXED[i - n])
         if r.chance(0.3):
             lines.append("5 PRINT UNSET;Q(3)")       # runtime warnings
         if r.chance(0.2):
